@@ -14,3 +14,6 @@ import os; os.unlink(p)
 print('mir dump ok %.1fs' % dt)
 print('replay:', runner.replay_bin())
 PY
+# warm the Kani build (C13); the verdicts are recomputed by the check itself
+( cd kani && cp /repo/Cargo.lock . && cargo kani --target-dir ../.build/kani-target --default-unwind 4 --output-format terse >/dev/null 2>&1 || true )
+echo "kani warm-up done"
